@@ -465,6 +465,17 @@ func (w *hWorld) verdict(p protocol.Protocol, what, anchor string, ops []*operat
 
 	w.k.Tr.Logf("#%d %s anchor=%s err=%v ops=%d", w.k.Steps, what, short40(anchor), err != nil, len(ops))
 
+	switch {
+	case err != nil && mustFail:
+		w.k.Count("probe:known-verdict-rejected")
+	case err == nil && mustSucceed:
+		w.k.Count("probe:genuine-batch-read-back")
+	case err == nil:
+		w.k.Count("probe:hostile-read-returned-operations")
+	default:
+		w.k.Count("probe:hostile-read-rejected")
+	}
+
 	if err == nil {
 		w.checkReturned(p, what, anchor, ops)
 
